@@ -22,7 +22,17 @@ RULE = ("objects of every kind (network, grid, graph, system, script, trajectory
         "spec (1-4 species, 0-4 reactions with orders 0-4 per side, empty sides, repeated species, labelled/unlabelled, "
         "scalar or per-environment D/density/chstt/k with and without 'default'; grids 1-3^3 with all boundary "
         "combinations; graphs with own node/edge units; explicit/default state and chemostats; all policies/modes) with "
-        "an independent units system at every level; a case = (kind, mode, spec) with mode in direct | json | file-abs | "
+        "an independent units system at every level, explicit zero stoichiometric coefficients (first / middle / last); streams and "
+        "the clause each tests: [round trip: dict / JSON text / save+load, absolute and relative paths] modes direct, json, file-abs, "
+        "file-rel, file-inline; [serialising again gives the same dictionary] reserialise; [aliases interchangeable] alias + "
+        "documented-alias table; [omitted keys take the documented defaults] default + minimal dictionaries; [multi-file layouts, "
+        "external array files] multifile, multifile-inherit; [save/load under any valid file name, both trajectory storage modes] "
+        "file-names: families of names whose stems end in characters of '.json' saved TOGETHER in one directory, then all reloaded, "
+        "data file name and reference checked; [readers return independent objects holding the documented defaults] sequences: "
+        "read -> edit every units system / state array of the result in place -> read the same dictionary again (must equal the first "
+        "reading), a later unrelated dictionary with omitted units (must be in default units), no mutable object shared between two "
+        "results or with any default argument of the package; [stoichiometry incl. zero coefficients survives] zero-coefficient "
+        "cases in dict-of-sides and text form + random zeros in generated networks; a case = (kind, mode, spec) with mode in direct | json | file-abs | "
         "file-rel | multifile | reserialise | alias | default; non-trivial when at least two different unit systems occur "
         "in the object or the mode involves files/aliases/defaults; distinct by (kind, mode, spec)")
 ASSUMPTIONS = [
@@ -135,6 +145,11 @@ def gen_network(rng, parent=None):
             out = []
             for _ in range(rng.choice([0, 1, 1, 2, 2, 3])):
                 out.append([rng.choice(labels), rng.choice([1, 1, 1, 2, 3])])
+            # an explicit ZERO coefficient (a stoichiometric-matrix row): first, in the middle or last
+            if nsp > 1 and rng.random() < 0.25:
+                free = [l for l in labels if l not in [o[0] for o in out]]
+                if free:
+                    out.insert(rng.randint(0, len(out)) if rng.random() < 0.5 else 0, [rng.choice(free), 0])
             return out
         sub, prod = side(), side()
         reactions.append({"sub": sub, "prod": prod, "us": list(rus),
@@ -870,6 +885,283 @@ def run_mode(kind, mode, x, ref, spec, tmp, aliases, rng, case):
     raise ValueError(mode)
 
 
+# =============================================================================================
+# stream "file names": save_* / load_* under families of valid file names in ONE directory
+# =============================================================================================
+NAME_FAMILIES = [["run.json", "runs.json"], ["session.json", "sessions.json"], ["sim_n.json", "sim_s.json"],
+                 ["o.json", "oo.json", "json.json"], ["results", "resultss", "result.js"], ["a.b.json", "a.b.jsons.json"],
+                 ["traj.json", "trajs", "traj.jso"], ["x_data.json", "x.json"]]
+
+
+def stem_of(name):
+    return name[:-5] if name.endswith(".json") else name
+
+
+def check_file_names(ctx, specs, names, separate, replaying=False):
+    """save every trajectory under its name in one directory, THEN reload all and compare each with its own original;
+    the data file written next to each JSON file must be <stem>_data.npy and the JSON must refer to it"""
+    m = S()
+    xs = [BUILD["trajectory"](sp) for sp in specs]
+    refs = [VIEW["trajectory"](x) for x in xs]
+    with Tmp() as tmp:
+        try:
+            for x, nm in zip(xs, names):
+                m["ro"].save_rdtrajectory(x, os.path.join(tmp, nm), separate_data=separate)
+        except Exception as ex:  # noqa
+            return fail("filenames:trajectory:raises", "saving trajectories under the names %s raises %s: %s" % (names, type(ex).__name__, str(ex)[:150]),
+                        impl=repr(ex))
+        for i, nm in enumerate(names):
+            st = stem_of(nm)
+            jp = os.path.join(tmp, st + ".json")
+            if not os.path.exists(jp):
+                return fail("filenames:trajectory:json-name", "save_rdtrajectory(%r) did not write %s.json (directory: %s)" % (nm, st, sorted(os.listdir(tmp))),
+                            impl=sorted(os.listdir(tmp)), expected=st + ".json")
+            if separate:
+                if not os.path.exists(os.path.join(tmp, st + "_data.npy")):
+                    return fail("filenames:trajectory:data-name", "save_rdtrajectory(%r, separate_data=True) did not write %s_data.npy (directory: %s)"
+                                % (nm, st, sorted(os.listdir(tmp))), impl=sorted(os.listdir(tmp)), expected=st + "_data.npy")
+                ref_name = json.load(open(jp, encoding="utf-8"))["data"]["value"]
+                if ref_name != st + "_data.npy":
+                    return fail("filenames:trajectory:data-ref", "the file written for %r refers to the data file %r instead of %r" % (nm, ref_name, st + "_data.npy"),
+                                impl=ref_name, expected=st + "_data.npy")
+            y, err = guarded(lambda: m["ro"].load_rdtrajectory(jp))
+            if err is not None:
+                return fail("filenames:trajectory:raises", "loading %s.json (saved next to %s) raises %s" % (st, [n for n in names if n != nm], err), impl=err)
+            df = diff(refs[i], VIEW["trajectory"](y))
+            if df:
+                return fail("filenames:trajectory:%s" % field_of(df[0]),
+                            "trajectory saved as %r next to %s comes back with a different %s" % (nm, [n for n in names if n != nm], df[0]),
+                            impl=df[2], expected=df[1])
+    return True, {}
+
+
+def file_name_stream(ctx):
+    rng = ctx.rng
+    for i in range(ctx.n(12, 300)):
+        fam = NAME_FAMILIES[i % len(NAME_FAMILIES)]
+        names = list(fam)
+        rng.shuffle(names)
+        separate = (i % 3 != 2)
+        specs = []
+        for _ in names:
+            sp = gen_trajectory(rng)
+            sp["cgmap_np"] = False
+            specs.append(sp)
+        case = {"kind": "file-names", "names": names, "separate": separate, "specs": specs}
+        try:
+            holds, detail = check_file_names(ctx, specs, names, separate)
+        except Exception as ex:  # noqa
+            holds, detail = fail("filenames:trajectory:raises", "file-name stream raises %s: %s" % (type(ex).__name__, str(ex)[:200]), impl=repr(ex))
+        ctx.case(("fn", tuple(names), separate, i), nontrivial=True)
+        ctx.count("stream_file_names")
+        if not holds:
+            ctx.violation(detail["key"], detail["what"], case, impl=detail.get("impl"), expected=detail.get("expected"))
+
+
+# =============================================================================================
+# stream "sequences": read -> edit the result in place -> read again; no aliasing between results / module defaults
+# =============================================================================================
+def mutable_ids(obj, seen=None, depth=0):
+    """ids of every mutable object reachable from obj (package objects, numpy arrays, lists, dicts)"""
+    import numpy as np
+    if seen is None:
+        seen = {}
+    if depth > 12 or obj is None or isinstance(obj, (str, int, float, bool, bytes)):
+        return seen
+    if id(obj) in seen:
+        return seen
+    if isinstance(obj, tuple):
+        for v in obj:
+            mutable_ids(v, seen, depth + 1)
+        return seen
+    if isinstance(obj, np.ndarray):
+        seen[id(obj)] = "ndarray"
+        return seen
+    if isinstance(obj, (list, set)):
+        seen[id(obj)] = type(obj).__name__
+        for v in obj:
+            mutable_ids(v, seen, depth + 1)
+        return seen
+    if isinstance(obj, dict):
+        seen[id(obj)] = "dict"
+        for v in obj.values():
+            mutable_ids(v, seen, depth + 1)
+        return seen
+    mod = getattr(type(obj), "__module__", "") or ""
+    if mod.startswith("strengths") and hasattr(obj, "__dict__"):
+        seen[id(obj)] = type(obj).__name__
+        for v in vars(obj).values():
+            mutable_ids(v, seen, depth + 1)
+    return seen
+
+
+def module_default_ids():
+    """mutable default-argument objects of every function / method of the package (UnitsSystem(), RDGridSpace(), [""] …)"""
+    import inspect
+    import strengths
+    out = {}
+    m = S()
+    for mod in m.values():
+        for name, f in list(vars(mod).items()):
+            fs = []
+            if inspect.isfunction(f):
+                fs.append((name, f))
+            elif inspect.isclass(f) and (getattr(f, "__module__", "") or "").startswith("strengths"):
+                for n2, g in vars(f).items():
+                    if inspect.isfunction(g):
+                        fs.append((name + "." + n2, g))
+            for qn, g in fs:
+                for dv in (g.__defaults__ or ()):
+                    for i, what in mutable_ids(dv).items():
+                        out.setdefault(i, "%s default of %s" % (what, qn))
+    return out
+
+
+def edit_in_place(obj, rng_choice):
+    """edit, through the public API, every units system reachable from a reader's result (and its state array)"""
+    import numpy as np
+    m = S()
+    US = m["u"].UnitsSystem
+    done = set()
+
+    def walk(o, depth=0):
+        if o is None or depth > 12 or id(o) in done or isinstance(o, (str, int, float, bool)):
+            return
+        done.add(id(o))
+        if isinstance(o, US):
+            o.space = "m" if o.space != "m" else "km"
+            o["time"] = "min" if o.time != "min" else "h"
+            o.quantity = "mol" if o.quantity != "mol" else "kmol"
+            return
+        if isinstance(o, np.ndarray):
+            if o.size and o.dtype.kind == "f":
+                o[0] = o[0] + 1.0
+            return
+        if isinstance(o, (list, tuple)):
+            for v in o:
+                walk(v, depth + 1)
+            return
+        if isinstance(o, dict):
+            for v in o.values():
+                walk(v, depth + 1)
+            return
+        if (getattr(type(o), "__module__", "") or "").startswith("strengths") and hasattr(o, "__dict__"):
+            for v in vars(o).values():
+                walk(v, depth + 1)
+    walk(obj)
+
+
+def strip_units(kind, d, level):
+    """dictionary with the `units` keys of the first `level` nesting levels left to inheritance"""
+    d = copy.deepcopy(d)
+    for (dk, dd, path) in sub_dicts(kind, d):
+        depth = path.count(".")
+        if dk in ("species", "reaction", "network", "grid", "graph", "system", "script", "node", "edge") and depth <= level:
+            dd.pop("units", None)
+    return d
+
+
+def check_sequence(kind, spec, level):
+    """read(d) -> view1 ; edit the result in place ; read(d) again -> must equal view1 and the explicit-default spelling;
+    the two results and the package's default arguments share no mutable object"""
+    to_d, from_d = conv(kind)[:2]
+    x = BUILD[kind](spec)
+    d = strip_units(kind, jsonable_dict(to_d(x)), level)
+    o1, err = guarded(lambda: from_d(copy.deepcopy(d)))
+    if err is not None:
+        return True, {}          # quantity text no longer fits the inherited units: nothing to compare
+    v1 = VIEW[kind](o1)
+    defaults = module_default_ids()
+    shared = [defaults[i] for i in mutable_ids(o1) if i in defaults]
+    edit_in_place(o1, None)
+    o2, err = guarded(lambda: from_d(copy.deepcopy(d)))
+    if err is not None:
+        return fail("sequence:%s:raises" % kind, "reading the same %s dictionary again after editing the first result in place raises %s" % (kind, err), impl=err)
+    v2 = VIEW[kind](o2)
+    df = diff(v1, v2)
+    if df:
+        return fail("sequence:%s:%s" % (kind, field_of(df[0])),
+                    "reading the same %s dictionary (units omitted at %d level(s)) again, after editing the FIRST result's units systems in place, gives a different %s"
+                    % (kind, level + 1, df[0]), impl=df[2], expected=df[1])
+    ids1, ids2 = mutable_ids(o1), mutable_ids(o2)
+    common = [ids1[i] for i in ids1 if i in ids2]
+    if common:
+        return fail("aliasing:%s:between-results" % kind, "two objects read from the same %s dictionary share a mutable %s" % (kind, common[0]), impl=common[:3])
+    # a different dictionary read later with omitted units = the documented default units
+    m = S()
+    later = {"species": [{"label": "A", "D": 2, "density": 3}], "reactions": [{"eq": "A -> ", "k+": 5}]}
+    n1, e1 = guarded(lambda: view_network(m["rn"].rdnetwork_from_dict(copy.deepcopy(later))))
+    n2, e2 = guarded(lambda: view_network(m["rn"].rdnetwork_from_dict(dict(copy.deepcopy(later), units={"space": "µm", "time": "s", "quantity": "molecule"}))))
+    if e1 or e2 or diff(n2, n1):
+        return fail("sequence:%s:later-default" % kind, "after that edit, a network dictionary with omitted units is no longer read in the documented default units (µm, s, molecule)",
+                    impl=e1 or (diff(n2, n1) and str(diff(n2, n1))[:200]))
+    if shared:
+        return fail("aliasing:%s:module-default" % kind, "the object returned by the %s reader holds (not a copy of) the %s" % (kind, shared[0]),
+                    impl=shared[:3])
+    return True, {}
+
+
+def sequence_stream(ctx):
+    rng = ctx.rng
+    kinds = ["network", "grid", "graph", "system", "script"]
+    for i in range(ctx.n(40, 1200)):
+        kind = kinds[i % len(kinds)]
+        spec = GEN[kind](rng)
+        level = rng.choice([0, 0, 1, 3])
+        case = {"kind": "sequence", "of": kind, "level": level, "spec": spec}
+        try:
+            holds, detail = check_sequence(kind, spec, level)
+        except Exception as ex:  # noqa
+            ctx.count("generator_rejected")
+            continue
+        ctx.case(("seq", kind, level, json.dumps(spec, sort_keys=True)), nontrivial=True)
+        ctx.count("stream_sequence_" + kind)
+        if not holds:
+            ctx.violation(detail["key"], detail["what"], case, impl=detail.get("impl"), expected=detail.get("expected"))
+
+
+# =============================================================================================
+# stream "zero coefficients": reaction sides holding explicit zeros, dict-of-sides and text form
+# =============================================================================================
+ZERO_CASES = [([{"A": 0, "B": 2}, {"D": 1}], None), ([{"A": 1, "B": 0}, {"D": 0, "A": 1}], None), ([{"A": 0}, {"B": 0, "D": 3}], None),
+              (None, "0 A + B -> D"), (None, "A + 0 B -> 0 D + 2 A"), (None, "0 A -> B"), (None, "2 A -> 0 B"),
+              ([{"B": 0, "A": 0, "D": 1}, {}], None)]
+
+
+def zero_coefficient_stream(ctx):
+    m = S()
+    for sides, text in ZERO_CASES:
+        case = {"kind": "zero-coefficient", "sides": sides, "text": text}
+        holds, detail = check_zero_case(sides, text)
+        ctx.case(("zero", json.dumps(sides), text), nontrivial=True)
+        ctx.count("stream_zero_coefficients")
+        if not holds:
+            ctx.violation(detail["key"], detail["what"], case, impl=detail.get("impl"), expected=detail.get("expected"))
+
+
+def check_zero_case(sides, text):
+    m = S()
+    try:
+        sp = [m["rn"].Species(l) for l in "ABD"]
+        r = m["rn"].Reaction(sides if sides is not None else text, kf=2.0, kr=0.0, units_system=mk_sys(("mm", "s", "mol")))
+        net = m["rn"].RDNetwork(sp, [r])
+    except Exception as ex:  # noqa
+        return True, {}      # not constructible: outside the quantifier
+    ref = view_network(net)
+    for mode in ("direct", "json", "file-abs", "reserialise"):
+        with Tmp() as tmp:
+            try:
+                holds, detail = run_mode("network", mode, net, ref, {}, tmp, {}, None, {})
+            except Exception as ex:  # noqa
+                holds, detail = fail("zero:network:raises", "%s of a network with a zero coefficient raises %s: %s" % (mode, type(ex).__name__, str(ex)[:150]))
+        if not holds:
+            detail = dict(detail)
+            detail["key"] = "zero-coefficient:" + detail["key"]
+            detail["what"] = "reaction %s: %s (written equation: %r)" % (sides if sides is not None else repr(text), detail["what"], r.to_string())
+            return False, detail
+    return True, {}
+
+
 MODES = {"network": ["direct", "json", "file-abs", "file-rel", "reserialise", "alias", "default"],
          "grid": ["direct", "json", "file-abs", "file-rel", "reserialise", "alias", "default"],
          "graph": ["direct", "json", "file-abs", "file-rel", "reserialise", "alias"],
@@ -910,8 +1202,12 @@ def run(ctx):
             check_object(ctx, kind, spec, MODES[kind], aliases, rng)
     documented_alias_checks(ctx, aliases)
     special_cases(ctx)
+    zero_coefficient_stream(ctx)
+    file_name_stream(ctx)
     from props import c12_model
     c12_model.correspond(ctx, aliases)
+    # last: these sequences edit objects in place (on a defective tree they may corrupt module-level defaults)
+    sequence_stream(ctx)
 
 
 def documented_alias_checks(ctx, aliases):
@@ -1061,7 +1357,7 @@ def replay(ctx, rec):
         return True, {"note": "this replay file names broken obligations only (no failing input was found); nothing to re-run on the code",
                       "broken": [b.get("name") for b in rec.get("broken", [])]}
     case = rec.get("case", rec)
-    out = {"case": {k: v for k, v in case.items() if k != "spec"}}
+    out = {"case": {k: v for k, v in case.items() if k not in ("spec", "specs")}}
     if case.get("kind") == "minimal" or case.get("kind") == "doc-alias":
         class C:  # minimal context collecting violations
             def __init__(self):
@@ -1085,6 +1381,18 @@ def replay(ctx, rec):
             vs = [v for v in c.v if v["key"] == rec.get("key")]
         out["violations"] = vs
         return (not vs), out
+    if case.get("kind") == "file-names":
+        holds, detail = check_file_names(ctx, case["specs"], case["names"], case["separate"], replaying=True)
+        out.update(detail)
+        return holds, out
+    if case.get("kind") == "sequence":
+        holds, detail = check_sequence(case["of"], case["spec"], case["level"])
+        out.update(detail)
+        return holds, out
+    if case.get("kind") == "zero-coefficient":
+        holds, detail = check_zero_case(case["sides"], case["text"])
+        out.update(detail)
+        return holds, out
     if "model_case" in case:
         from props import c12_model
         return c12_model.replay(ctx, case, out)
